@@ -711,3 +711,157 @@ Definition R (th : list Z) (progs : list (list op)) (s : sysS) : Prop := reachab
 
 Lemma R_inv th progs s : R th progs s -> Inv (gl s) (thr s).
 Proof. intros H. eapply reachable_inv; [apply Inv_step|apply Inv_init|exact H]. Qed.
+
+Notation enabledS := (enabled glob loc tstep).
+Notation quiescentS := (quiescent glob loc tstep).
+
+(* ---------- memory safety ---------- *)
+Lemma never_faulted th progs s : R th progs s -> faulted (gl s) = false.
+Proof. intros H. apply (I_nf _ _ (R_inv _ _ _ H)). Qed.
+
+Definition is_fault (e : ev) : bool := ek e =? K_FAULT.
+Lemma fault_evs_flag code ok : existsb is_fault (fault_evs code ok) = negb ok.
+Proof. destruct ok; reflexivity. Qed.
+
+(* a step that logs a Fault event sets the sticky flag (for both orders of removeObject(pred)) *)
+Lemma fault_sets_flag unfixed t c g l g' l' es :
+  tstep_gen unfixed t c g l = Some (g', l', es) -> existsb is_fault es = true -> faulted g' = true.
+Proof.
+  intros Hs He. destruct l as [pr p sl hd].
+  unfold tstep_gen, set_hf, slot in Hs; cbn [at_ prog slots held] in Hs;
+  repeat match type of Hs with
+         | context [match ?x with _ => _ end] => destruct x eqn:?; cbn [at_ prog slots held] in Hs
+         | context [if ?x then _ else _] => destruct x eqn:?; cbn [at_ prog slots held] in Hs
+         end;
+  try discriminate; inversion Hs; subst; clear Hs; cbn [faulted];
+  try reflexivity;
+  repeat (rewrite ?existsb_app, ?fault_evs_flag in He; cbn [existsb is_fault ek E app] in He);
+  cbn in He; try discriminate;
+  repeat match goal with b : bool |- _ => destruct b end; cbn in *; try discriminate; try reflexivity;
+  rewrite ?orb_true_r; try reflexivity.
+  all: repeat match goal with |- context [alive ?h ?p] => destruct (alive h p) end; cbn in *; try discriminate;
+       rewrite ?orb_true_r; reflexivity.
+Qed.
+
+Lemma no_fault_event th progs s t c l g' l' es :
+  R th progs s -> nth_error (thr s) t = Some l -> tstep t c (gl s) l = Some (g', l', es) ->
+  existsb is_fault es = false.
+Proof.
+  intros HR Hl Hs. destruct (existsb is_fault es) eqn:E; [|reflexivity].
+  pose proof (fault_sets_flag _ _ _ _ _ _ _ _ Hs E) as Hf.
+  pose proof (Inv_step _ _ _ _ _ _ _ _ (R_inv _ _ _ HR) Hl Hs) as HI. rewrite (I_nf _ _ HI) in Hf. discriminate.
+Qed.
+
+(* an object a client holds (in a slot, or on its way in or out of a call) has a positive use-count:
+   it has not been destroyed, whatever the other threads removed meanwhile *)
+Lemma returned_alive th progs s u l p :
+  R th progs s -> nth_error (thr s) u = Some l ->
+  (exists b, getslot b (slots l) = Some p) \/ held l = Some p ->
+  (1 <= rc_of (heap (gl s)) (pid p))%nat /\ alive (heap (gl s)) p = true.
+Proof.
+  intros HR Hl Hh. pose proof (I_rc _ _ (R_inv _ _ _ HR) (pid p)) as E.
+  pose proof (sum_ge (cnt_loc (pid p)) _ _ _ Hl) as G.
+  assert (1 <= cnt_loc (pid p) l)%nat as Hc.
+  { unfold cnt_loc. destruct Hh as [[b Hb]|Hb].
+    - pose proof (cnt_getslot (pid p) b (slots l)) as Q. rewrite Hb, cnt_opt_self in Q. lia.
+    - rewrite Hb, cnt_opt_self. lia. }
+  split; [lia|apply alive_pos; lia].
+Qed.
+(* ... and so has every object stored in the map *)
+Lemma stored_alive th progs s k p :
+  R th progs s -> lookup k (omap (gl s)) = Some p -> (1 <= rc_of (heap (gl s)) (pid p))%nat.
+Proof.
+  intros HR Hk. pose proof (I_rc _ _ (R_inv _ _ _ HR) (pid p)) as E. pose proof (cnt_lookup _ _ _ Hk). lia.
+Qed.
+(* exact accounting: no leak, no lost reference *)
+Lemma use_count_exact th progs s id :
+  R th progs s -> rc_of (heap (gl s)) id = (cnt_o id (omap (gl s)) + list_sum (map (cnt_loc id) (thr s)))%nat.
+Proof. intros HR. apply (I_rc _ _ (R_inv _ _ _ HR)). Qed.
+
+(* ---------- every method is one critical section of mapLock ---------- *)
+Lemma mutex_iff_inside th progs s u : R th progs s -> (mtx (gl s) = Some u <-> holds (pcof (thr s) u) = true).
+Proof. intros HR. pose proof (R_inv _ _ _ HR) as HI. split; [apply (I_held _ _ HI)|apply (I_owner _ _ HI)]. Qed.
+
+Lemma mutual_exclusion th progs s u v : R th progs s ->
+  holds (pcof (thr s) u) = true -> holds (pcof (thr s) v) = true -> u = v.
+Proof.
+  intros HR Hu Hv. pose proof (R_inv _ _ _ HR) as HI.
+  pose proof (I_owner _ _ HI u Hu). pose proof (I_owner _ _ HI v Hv). congruence.
+Qed.
+
+(* the maps, the call counter and the log change only in steps of the thread that owns the mutex
+   after the step (the lock step itself, or a step inside the section) or that releases it *)
+Lemma changes_inside_section th progs s t c l g' l' es :
+  R th progs s -> nth_error (thr s) t = Some l -> tstep t c (gl s) l = Some (g', l', es) ->
+  (omap g' = omap (gl s) /\ tmap g' = tmap (gl s) /\ calls g' = calls (gl s)) \/
+  (mtx g' = Some t /\ (mtx (gl s) = None \/ mtx (gl s) = Some t)).
+Proof.
+  intros HR Hl Hs. pose proof (R_inv _ _ _ HR) as HI.
+  pose proof (I_owner _ _ HI t) as HO. rewrite (pcof_at _ _ _ Hl) in HO.
+  destruct l as [pr p sl hd]. cbn [at_] in HO.
+  step_cases Hs; cbn [omap tmap calls mtx]; auto; cbn in HO; specialize (HO eq_refl); auto.
+Qed.
+
+(* the log grows exactly in the step that releases the mutex, and that step is the one that emits
+   the operation's return (or the exception that leaves it), with the logged result *)
+Lemma log_step t c g l g' l' es : tstep t c g l = Some (g', l', es) ->
+  (log g' = log g /\ (holds (at_ l) = false \/ exists o k, at_ l = Call o k)) \/
+  (exists o a r, at_ l = Unlock o a r /\ log g' = log g ++ [Entry t o a (Some r)] /\ mtx g' = None /\
+                 In (E K_UNLOCK O_MTX 0) es /\ In (E K_RET 0 r) es) \/
+  (exists o, at_ l = XUnlock o /\ log g' = log g ++ [Entry t (OP o) null_ptr None] /\ mtx g' = None /\
+             In (E K_UNLOCK O_MTX 0) es /\ In (E K_CATCH 0 0) es).
+Proof.
+  intros Hs. destruct l as [pr p sl hd].
+  step_cases Hs; cbn [log at_ holds mtx]; auto.
+  all: try (left; split; [reflexivity|right; eauto]; fail).
+  - right; left. do 3 eexists. repeat split; try reflexivity; [left; reflexivity|].
+    right. apply in_or_app; right. left; reflexivity.
+  - right; left. do 3 eexists. repeat split; try reflexivity; cbn; auto.
+  - right; right. eexists. repeat split; try reflexivity; cbn; auto.
+Qed.
+
+(* the log is a legal sequential history of the map and, whenever the mutex is free, the map is
+   the state that history produces *)
+Lemma log_is_history th progs s : R th progs s ->
+  legal (throws (gl s)) st0 (log (gl s)) /\ (mtx (gl s) = None -> cur (gl s) = hist (gl s)).
+Proof. intros HR. pose proof (R_inv _ _ _ HR) as HI. split; [apply (I_legal _ _ HI)|apply (I_free _ _ HI)]. Qed.
+
+(* inside a section: the owner's progress, expressed with the method run alone *)
+Lemma section_refines th progs s u : R th progs s -> lin_pc (gl s) (pcof (thr s) u).
+Proof. intros HR. apply (I_lin _ _ (R_inv _ _ _ HR)). Qed.
+
+Lemma throws_const th progs s : R th progs s -> throws (gl s) = th.
+Proof.
+  intros H. refine (reachable_inv glob loc tstep (fun g _ => throws g = th) _ (init th progs) s eq_refl H).
+  intros g ls t c l g' l' es Hg Hl Hs. destruct l as [pr p sl hd]. step_cases Hs; cbn; auto.
+Qed.
+
+(* ---------- exception safety (C20): a throwing predicate ---------- *)
+Lemma pscan_none thr o om tm rest c s' : pscan thr o om tm rest c = (s', None) -> m_o s' = om /\ m_t s' = tm.
+Proof.
+  revert c; induction rest as [|[k p] r IH]; intros c; [rewrite pscan_nil; discriminate|].
+  rewrite pscan_cons. destruct (memZ c thr); [intros H; inversion H; auto|].
+  destruct (ptest o tm k p); [|apply IH].
+  destruct (pfound o om tm k p) as [[a b] rv]. discriminate.
+Qed.
+Lemma exn_unchanged thr o a s s' : apply_op thr o a s = (s', None) -> m_o s' = m_o s /\ m_t s' = m_t s.
+Proof.
+  destruct o as [so|po|lo]; cbn [apply_op].
+  - destruct (apply_sop so a (m_o s) (m_t s)) as [[[x y] z] w]. discriminate.
+  - apply pscan_none.
+  - discriminate.
+Qed.
+(* the step in which the predicate throws changes neither map and leads to the unwinding pc;
+   the next step of that thread releases the mutex and lets the exception leave *)
+Lemma throw_step t c g l g' l' es : tstep t c g l = Some (g', l', es) ->
+  existsb (fun e => ek e =? K_THROW) es = true ->
+  omap g' = omap g /\ tmap g' = tmap g /\ exists o, at_ l' = XUnlock o.
+Proof.
+  intros Hs He. destruct l as [pr p sl hd].
+  step_cases Hs; cbn [omap tmap at_]; try (split; [reflexivity|split; [reflexivity|eauto]]; fail);
+    exfalso; repeat (rewrite ?existsb_app in He; cbn [existsb ek E app] in He);
+    repeat match goal with |- context [fault_evs ?a ?b] => destruct b end;
+    repeat match type of He with context [fault_evs ?a ?b] => destruct b end; cbn in He; discriminate.
+Qed.
+Lemma top_level_owns_nothing th progs s u : R th progs s -> holds (pcof (thr s) u) = false -> mtx (gl s) <> Some u.
+Proof. intros HR Hh Hm. rewrite (I_held _ _ (R_inv _ _ _ HR) u Hm) in Hh. discriminate. Qed.
